@@ -332,7 +332,41 @@ func countGroups(m map[string]string) int {
 	return len(g)
 }
 
-func (c Call) build() *args {
+// sharedMode (set by Run for the duration of one run, see Plan.SharedArgs): rule maps and function tables are package-level
+// objects shared by every call of every client, as a service that keeps `var rules = valid.RM{...}` next to its handlers does.
+var sharedMode bool
+var sharedRules []valid.RM
+var sharedFns []valid.Name2FnMap
+
+func setShared(on bool) {
+	sharedMode = on
+	sharedRules, sharedFns = nil, nil
+	if on {
+		for i := range ruleSets {
+			sharedRules = append(sharedRules, mkRule(i))
+		}
+		for i := 0; i < NFnSets; i++ {
+			sharedFns = append(sharedFns, mkFns(i))
+		}
+	}
+}
+
+func (c Call) build() *args { return c.buildMode(sharedMode) }
+
+func (c Call) buildMode(shared bool) *args {
+	a := c.buildFresh()
+	if shared && !c.Keep && c.Rule != 7 && c.Type < 3000 && (c.IsStruct() || c.Entry == EMapFn || c.Entry == EVarChain) {
+		if c.IsStruct() && a.rule != nil && c.Rule > 0 && c.Rule < len(sharedRules) {
+			a.rule = sharedRules[c.Rule]
+		}
+		if a.fns != nil && c.Fn > 0 && c.Fn < len(sharedFns) {
+			a.fns = sharedFns[c.Fn]
+		}
+	}
+	return a
+}
+
+func (c Call) buildFresh() *args {
 	a := &args{}
 	switch {
 	case c.Type >= 3000 && c.IsStruct():
@@ -729,8 +763,9 @@ func (c Call) Exec() (res Result) {
 	default:
 		res.Canon = "panic:unknown entry " + c.Entry
 	}
-	// inputs must be left as they were: compare with a twin built from the same descriptor
-	b := c.build()
+	// inputs must be left as they were: compare with a twin built from the same descriptor (always a fresh one, also when
+	// the call itself used the shared tables of its run)
+	b := c.buildMode(false)
 	switch {
 	case c.Entry == EDumpJson && c.Shape == 1:
 		// func / chan / NaN fields: two values built alike are never deeply equal; only the ordinary field is compared
